@@ -98,7 +98,17 @@ def gen_case(rng):
         t = rng.choice(INTS[1:])
         return k, ["p0(%s)" % t, t]
     if k == "cast":
-        return k, ["p0(%s)" % rng.choice(INTS), "p0(%s)" % first_class(rng)]
+        if rng.random() < 0.2:
+            return k, ["p0(%s)" % rng.choice(INTS), "p0(%s)" % first_class(rng)]
+        # every conversion instruction, scalar and (fixed / scalable) vector operands
+        op = rng.choice(["trunc", "zext", "sext", "fptrunc", "fpext", "fptoui", "fptosi", "uitofp", "sitofp", "ptrtoint", "inttoptr", "bitcast", "addrspacecast"])
+        a, b = {"trunc": ("i64", "i8"), "zext": ("i8", "i64"), "sext": ("i16", "i32"), "fptrunc": ("f2", "f1"), "fpext": ("f1", "f2"), "fptoui": ("f1", "i32"),
+                "fptosi": ("f2", "i64"), "uitofp": ("i32", "f1"), "sitofp": ("i64", "f2"), "ptrtoint": ("p0(i8)", "i64"), "inttoptr": ("i64", "p0(i8)"),
+                "bitcast": ("i32", "f1"), "addrspacecast": ("p0(i8)", "p1(i8)")}[op]
+        if rng.random() < 0.6:
+            sc, n = rng.choice(["V", "V", "S"]), rng.choice([1, 2, 4])
+            a, b = "%s%d(%s)" % (sc, n, a), "%s%d(%s)" % (sc, n, b)
+        return "cast:" + op, [a, b]
     if k == "icmp":
         e = rng.choice(INTS + ["p0(i8)", "p1(n61)"])
         t = e if rng.random() < 0.4 else vec_of(rng, e)
@@ -126,14 +136,29 @@ def gen_case(rng):
 
 def use_stream(rng, driver, n):
     """`!typ.use` lines only (also part of C01: parse-then-print keeps the type at which a result is used)"""
-    cases = [gen_case(rng) for _ in range(n)]
+    cases = systematic_cases() + [gen_case(rng) for _ in range(n)]
     spec = C.run_lines([driver], ["typ.spec %s %s" % (k, " ".join(ts)) for k, ts in cases], shards=8)
     return [("!typ.use %s %s" % (k, " ".join(ts))).rstrip() + " " + sp for (k, ts), sp in zip(cases, spec) if sp not in ("illtyped", "unknown-op")]
 
 
+CASTS = {"trunc": ("i64", "i8"), "zext": ("i8", "i64"), "sext": ("i16", "i32"), "fptrunc": ("f2", "f1"), "fpext": ("f1", "f2"), "fptoui": ("f1", "i32"),
+         "fptosi": ("f2", "i64"), "uitofp": ("i32", "f1"), "sitofp": ("i64", "f2"), "ptrtoint": ("p0(i8)", "i64"), "inttoptr": ("i64", "p0(i8)"),
+         "bitcast": ("i32", "f1"), "addrspacecast": ("p0(i8)", "p1(i8)")}
+
+
+def systematic_cases():
+    """every conversion instruction on a scalar, a fixed vector and a scalable vector operand: present in every run"""
+    out = []
+    for op, (a, b) in sorted(CASTS.items()):
+        out.append(("cast:" + op, [a, b]))
+        for sc, n in (("V", 4), ("S", 2)):
+            out.append(("cast:" + op, ["%s%d(%s)" % (sc, n, a), "%s%d(%s)" % (sc, n, b)]))
+    return out
+
+
 def gen(tier, rng, harness, driver):
     n = 700 if tier == "quick" else 60000
-    cases = [gen_case(rng) for _ in range(n)]
+    cases = systematic_cases() + [gen_case(rng) for _ in range(n)]
     spec = C.run_lines([driver], ["typ.spec %s %s" % (k, " ".join(ts)) for k, ts in cases], shards=8)
     lines = []
     for (k, ts), sp in zip(cases, spec):
